@@ -125,13 +125,17 @@ package buffer
 // WriterOnce:  wrote   a Write has been accepted (state beyond "init": Reader() has data to hand over)
 //              taken   Reader() has handed the data over
 //              spilled a temporary file exists on disk and still belongs to the writer (initFile ran, Reader() not yet)
+//              closed  Close() was called: the file handle is closed, a spilled writer can no longer hand its data over
 // MultiReader: owns    closing this reader removes a temporary file (it was obtained from a spilled writer)
 //              pos     read offset (0 = the next Read returns the first byte)
-// The ghost state is not thread-local: the wrapped handler reaches the writer through bufferWriter's methods.
+// wrote / taken / spilled are not thread-local: the wrapped handler reaches the writer through bufferWriter's methods.
+// closed is thread-local (assumption: nothing but bufferWriter.Close closes the capture buffer; Close is not part of
+// http.ResponseWriter).
 //@ type github.com/mailgun/multibuf.WriterOnce
 //@   ghost wrote bool
 //@   ghost taken bool
 //@   ghost spilled bool
+//@   ghost closed bool threadlocal
 //@ type github.com/mailgun/multibuf.MultiReader
 //@   ghost owns bool
 //@   ghost pos int
@@ -148,7 +152,7 @@ package buffer
 //@ extern github.com/mailgun/multibuf.NewWriterOnce
 //@   params setters
 //@   modifies nothing
-//@   ensures result1 == nil ==> result0 != nil && fresh(result0) && !result0.wrote && !result0.taken && !result0.spilled
+//@   ensures result1 == nil ==> result0 != nil && fresh(result0) && !result0.wrote && !result0.taken && !result0.spilled && !result0.closed
 //@   ensures result1 != nil ==> result0 == nil
 
 // New reads the whole input (the server's body reader): assumed not to touch the request's fields or oxy's state.
@@ -170,11 +174,13 @@ package buffer
 //@   ensures handed_over: result1 == nil ==> result0 != nil && fresh(result0) && self.taken && result0.owns == old(self.spilled) && result0.pos == 0
 //@   ensures no_data_is_an_error: !old(self.wrote) ==> result1 != nil
 //@   ensures fails_only_without_data_or_twice: result1 != nil ==> (old(self.taken) || !old(self.wrote)) && result0 == nil
-//@   ensures file_leaves_the_writer: !self.spilled
+//@   ensures file_leaves_the_writer: !(old(self.closed) && old(self.spilled)) ==> !self.spilled
+//@   ensures a_closed_spill_cannot_be_read: old(self.closed) && old(self.spilled) ==> result1 != nil && self.spilled
 
 //@ iface github.com/mailgun/multibuf.WriterOnce.Close
 //@   params self
-//@   modifies nothing
+//@   modifies self.closed
+//@   ensures self.closed
 
 //@ iface github.com/mailgun/multibuf.MultiReader.Close
 //@   params self
@@ -221,8 +227,8 @@ package buffer
 //@   ensures error_when_unsupported: !implements(b.responseWriter, "net/http.Hijacker") ==> calls(Hijack) == 0 && result2 != nil
 //@ func (*bufferWriter).Close
 //@   props C15
-//@   requires b != nil && b.buffer != nil
-//@   modifies b.buffer.taken, b.buffer.spilled
+//@   requires b != nil && b.buffer != nil && !b.buffer.closed
+//@   modifies b.buffer.taken, b.buffer.spilled, b.buffer.closed
 //@   ensures spill_file_removed: !b.buffer.spilled
 //@ func (*bufferWriter).expectBody
 //@   props C07 C15
@@ -293,7 +299,7 @@ package buffer
 //@   at_call b.next.ServeHTTP {C07} bounded_attempts: 1 <= attempt && attempt <= 11
 //@   at_call b.next.ServeHTTP {C07,C20} fresh_capture_writer: istype(arg0, "*bufferWriter") && fresh(payload(arg0)) && asref(payload(arg0), "*bufferWriter").code == 0 && !asref(payload(arg0), "*bufferWriter").hijacked
 //@   at_call b.retryPredicate {C07} decided_on_this_attempt: arg0.attempt == attempt && arg0.responseCode == ite(bw.code == 0, 200, bw.code) && arg0.r == req
-//@   after_call b.next.ServeHTTP capture_writer_invariant: bw.written ==> bw.buffer.wrote
+//@   after_call b.next.ServeHTTP capture_writer_invariant: (bw.written ==> bw.buffer.wrote)
 //@   at_call github.com/mailgun/multibuf.WriterOnce.Reader {C07} only_when_the_handler_wrote: bw.buffer.wrote
 //@   at_call w.WriteHeader {C07} implicit_200: arg0 == ite(bw.code == 0, 200, bw.code)
 //@   at_call w.WriteHeader {C07} final_attempt: b.retryPredicate == nil || attempt > 10 || !callres(b.retryPredicate, 0, 0)
